@@ -15,7 +15,7 @@ KINDS = {
     "C05": set(FAULTS),
     "C06": {"hang", "items"},
     "C07": {"compile", "compile_kind"},
-    "C08": {"optdiff", "facts"} | SEM,
+    "C08": {"optdiff", "facts", "lowering"} | SEM,
     "C09": {"class"},
     "C10": {"unicode", "compile"},
     "C11": set(SEM) | {"repl", "weakspan", "weakend"},
@@ -27,7 +27,7 @@ KINDS = {
     "C17": set(SEM) | {"compile_kind"},
     "C18": set(SEM) | FAULTS | {"history", "impure", "repl", "replerr", "partition", "items"},
     "C19": set(SEM) | {"repl", "weakspan", "weakend"},
-    "C20": set(SEM) | {"pair", "pair_m"},
+    "C20": set(SEM) | {"pair", "pair_m", "lowering"},
 }
 
 BASE = {"Leaves": "<-LvSem", "Quants": "<-QAll", "MaxSize": 4, "Shapes": "<-ShapesAll", "FlagSets": "<-OnlyNoFlags",
@@ -197,7 +197,8 @@ def plan(prop, tier):
                   Variants='{"laws"}', invs=["T1_RoundTrip", "T16_Laws"]),
                 G("lawsi", Leaves="<-LvAB", Quants="<-QBasic", MaxSize=3, MaxLen=3, FlagSets="<-AllFlags",
                   Alpha="{97, 65, 10}", Variants='{"laws"}', invs=["T16_Laws"]),
-                T("rand", "general", 1500, 30000)]
+                T("rand", "general", 1500, 30000),
+                {"type": "facts", "tag": "lower", "profiles": [("general", 400, 6000), ("loops", 300, 4000)]}]
     return []
 
 
